@@ -77,7 +77,7 @@ def unrelated(q):
 
 '''
 
-EXTRA_PARAMS = ["ss", "fs", "big", "dq", "arr", "cls_arg", "fn_arg", "meth_arg", "mod_arg", "builtin_arg"]
+EXTRA_PARAMS = ["ss", "fs", "ms", "mfs", "big", "dq", "arr", "cls_arg", "fn_arg", "meth_arg", "mod_arg", "builtin_arg"]
 EXTRA_VALUES = {
     "cls_arg": "int", "fn_arg": "unrelated", "meth_arg": "HOLDER.method", "mod_arg": "os", "builtin_arg": "len",
 }
@@ -94,8 +94,12 @@ TEMPLATES = [
 ]
 
 
-def sized_values(rng) -> Dict[str, str]:
-    """Python-literal sources of the extra arguments, sized around the repr limits."""
+def sized_values(rng, mixed: bool = True) -> Dict[str, str]:
+    """Python-literal sources of the extra arguments, sized around the repr limits.
+
+    ``mixed``: the sets ``ms`` / ``mfs`` hold items of types that can not be ordered (their iteration order depends on the hash
+    seed); only for contracts with the default a_repr - what a user-supplied a_repr does with them is its own business.
+    """
     words = ["alpha", "beta", "gamma", "delta", "eps", "zeta", "eta", "theta", "iota", "kappa"]
     n = rng.randint(2, 9)
     ss = "{" + ", ".join(repr(w) for w in rng.sample(words, n)) + "}"
@@ -106,7 +110,11 @@ def sized_values(rng) -> Dict[str, str]:
     # containers with a limit of their own in reprlib (deque, array), sized around the default limit of 50 and reprlib's own 6 / 5
     dq = "collections.deque(range({}))".format(rng.choice([0, 5, 6, 7, 20, 49, 50, 51, 80]))
     arr = "array.array('i', range({}))".format(rng.choice([0, 4, 5, 6, 20, 50, 51]))
-    out = {"ss": ss, "fs": fs, "big": big, "dq": dq, "arr": arr}
+    if mixed:
+        ms = "{" + ", ".join([repr(w) for w in rng.sample(words, rng.randint(2, 5))] + rng.sample(["1", "2.5", "None", "('t', 1)", "b'raw'", "70"], 3)) + "}"
+    else:
+        ms = "{" + ", ".join(repr(w) for w in rng.sample(words, 3)) + "}"
+    out = {"ss": ss, "fs": fs, "ms": ms, "mfs": "frozenset({})".format(ms), "big": big, "dq": dq, "arr": arr}
     out.update(EXTRA_VALUES)
     return out
 
@@ -175,7 +183,7 @@ def run(w) -> None:
             for _ in range(40):
                 vals = env.values(rng)
                 lit = {k: literal(v) for k, v in vals.items()}
-                lit.update(sized_values(rng))
+                lit.update(sized_values(rng, mixed=not it["custom_repr"]))
                 ns = dict(vars(mod))
                 try:
                     concrete = {k: eval(v, ns) for k, v in lit.items()}  # pylint: disable=eval-used
